@@ -20,8 +20,8 @@ def is_noise_stmt(s: ast.stmt) -> bool:
             return True
         if isinstance(v, ast.Call):
             head = v.func
-            while isinstance(head, ast.Attribute):
-                head = head.value
+            while isinstance(head, (ast.Attribute, ast.Call)):
+                head = head.value if isinstance(head, ast.Attribute) else head.func
             if isinstance(head, ast.Name) and (head.id in LOG_HEADS or head.id.endswith('pbar') or head.id.endswith('logger')):
                 return True
     if isinstance(s, ast.Pass):
